@@ -63,6 +63,16 @@ Proof.
     rewrite H1, N.eqb_refl, H2. reflexivity.
 Qed.
 
+(** The fault-stage monitor of C11 is the write clause of [m11p]. *)
+Theorem m11f_sound (c : pcase) : pc_teardown c = false -> m11f (set_obs c (model_run c)) = true.
+Proof.
+  intros Ht. pose proof (m11p_rollout_sound c Ht) as H. unfold m11p in H. unfold m11f.
+  apply andb_true_iff in H. destruct H as [H _]. apply andb_true_iff in H. destruct H as [H _].
+  destruct (pc_teardown (set_obs c (model_run c))); [reflexivity|]. cbn [orb] in *.
+  destruct (negb (existsb (violates (set_obs c (model_run c))) (pc_objects (set_obs c (model_run c))))); [reflexivity|].
+  cbn [orb] in *. apply andb_true_iff in H. now destruct H.
+Qed.
+
 (** C04 at the phase level, for the ObjectSet controllers' flavour (native owner references), quiet third
     parties and a phase whose entries name distinct objects: the model never reports a phase as cleaned up
     while a listed, teardown-admissible object is still controlled by the owner. *)
